@@ -33,3 +33,25 @@ Theorem C01_classes_without_global_draws :
   forallb (fun c => negb (draws_from_global c)) ["SIR"; "SIS"; "Measles"; "Ebola"; "Cholera"; "Gonorrhea"; "HIV"; "Deaths"; "Pregnancy"; "MFNet"; "MSMNet"; "StaticNet"; "ErdosRenyiNet"; "DiskNet";
                                                    "EmbeddingNet"; "MaternalNet"; "PrenatalNet"; "PostnatalNet"; "MixingPool"; "MixingPools"; "routine_vx"; "campaign_vx"; "treat_num"; "Dx"; "Tx"; "People"; "Sim"; "Loop"] = true.
 Proof. vm_compute. reflexivity. Qed.
+(* other simulations created or run in between: any interleaving with another simulation sharing the process (and doing anything at all to the
+   process-wide generator) leaves the first one exactly at its standalone result *)
+Theorem C01_interleaving_is_invisible : forall (shared mstate draws gstate : Type) (stream : Z -> nat -> nat -> draws) (offset : string -> Z) baseA baseB csA csB,
+  Forall (ignores_global shared mstate draws gstate) csA -> forall sched tiA msA sA tiB msB sB g g' perturb,
+  interleaved shared mstate draws gstate stream offset baseA baseB csA csB sched tiA msA sA tiB msB sB g =
+  fst (run shared mstate draws gstate stream offset baseA perturb csA (count_occ Bool.bool_dec sched true) tiA msA sA g').
+Proof. exact interleaving_is_invisible. Qed.
+Print Assumptions C01_interleaving_is_invisible.
+(* the premises are satisfiable and not trivially so: a component adding its own draw to its state ignores the generator, one that reads it does not,
+   and the interleaved run of the former with the latter is its standalone run *)
+Definition ex_stream (seed : Z) (ti ord : nat) : nat := (Z.to_nat (seed mod 7) + ti + ord)%nat.
+Definition ex_good : comp nat nat nat nat := mkComp nat nat nat nat "sir" (fun d ti m s g => ((m + d ".p" 0)%nat, (s + m)%nat, g)).
+Definition ex_bad : comp nat nat nat nat := mkComp nat nat nat nat "births" (fun d ti m s g => ((m + g)%nat, s, S g)).
+Example C01_premises_hold_somewhere :
+  Forall (ignores_global nat nat nat nat) [ex_good] /\ ~ ignores_global nat nat nat nat ex_bad /\
+  interleaved nat nat nat nat ex_stream (fun _ => 3%Z) 1 2 [ex_good] [ex_bad] [true; false; true; false; true] 0 [5%nat] 0%nat 0 [1%nat] 0%nat 9%nat = ([20%nat], 28%nat).
+Proof.
+  split; [|split].
+  - constructor; [|constructor]. intros d ti m s g g'. reflexivity.
+  - intros H. specialize (H (fun _ _ => 0%nat) 0%nat 0%nat 0%nat 0%nat 1%nat). discriminate H.
+  - vm_compute. reflexivity.
+Qed.
